@@ -550,7 +550,10 @@ func (b BindlistInstr) Execute(env *Zlisp) error {
 	}
 
 	for i, bindThisSym := range b.syms {
-		env.LexicalBindSymbol(bindThisSym, arr[i])
+		err = env.LexicalBindSymbol(bindThisSym, arr[i])
+		if err != nil {
+			return err
+		}
 	}
 	env.pc++
 	return nil
